@@ -493,6 +493,7 @@ def perturb(rng, spec):
     kw = s.get("kw", {})
     for k, v in list(kw.items()):
         if k == "type" and s.get("cls") != "ofp_error": continue
+        if k == "property": continue                   # a queue property's type code selects its class, like `type`
         if isinstance(v, bool) or v is None: continue
         if isinstance(v, int): kw[k] = rng.choice([0, v ^ 1, v // 2, v])
         elif isinstance(v, str) and k in ("data", "body"): kw[k] = v[:-2] if (v and rng.random() < 0.5) else v + "5a"
@@ -809,6 +810,11 @@ class C01(Check):
                 out["specs_want"] = self.learn_want(case["spec"])
                 try: out["specs2"] = self.learn_view(o2)
                 except Exception as e: out["specs2"] = "raise:%s: %s" % (type(e).__name__, str(e)[:80])
+                if len(obj.spec) > 0:             # == must see the specs: the same action without its last spec is another action
+                    try:
+                        o3 = self.B.build(case["spec"]); o3.spec.pop()
+                        out["eq_less"] = bool(o3 == obj) if o3.pack() != b else None
+                    except Exception as e: out["eq_less"] = None
             zs = self.zs_view(case["spec"], o2)
             if zs: out["zs"] = zs
             try: out["repack"] = o2.pack().hex()
@@ -1375,6 +1381,7 @@ class C01(Check):
             if got != want: return "string field %s decodes to %r, the original is %r" % (k, got, want)
         if isinstance(obs.get("eq"), str): return "== raises %s" % obs["eq"][6:]
         if obs.get("eq") is not True: return "unpack(pack(x)) != x"
+        if obs.get("eq_less") is True: return "== holds between two nx_action_learn whose flow_mod_specs (and bytes) differ"
         if obs.get("specs_want") is not None and obs.get("specs2") != obs["specs_want"]:
             return "decoded flow_mod_specs differ from the original: %s" % (obs.get("specs2") if isinstance(obs.get("specs2"), str) else "(src, dst, n_bits, data)")
         if isinstance(obs.get("repack"), str) and obs["repack"].startswith("raise:"): return "re-pack raises %s" % obs["repack"][6:]
@@ -1515,6 +1522,7 @@ class C01(Check):
         if f.startswith("unpack (") or f.startswith("pack differs when"): return "%s:calling-convention:%s" % (cls, f.split("(")[1].split(")")[0] if f.startswith("unpack") else "alt-forms")
         if f.startswith("pack accepts a string"): return "%s:pack:accepts-unrepresentable-string" % cls
         if f.startswith("string field"): return "%s:roundtrip:string-differs" % cls
+        if f.startswith("== holds between"): return "%s:eq:ignores-specs" % cls
         if f.startswith("decoded flow_mod_specs"): return "%s:roundtrip:specs-differ" % cls
         if "!=" in f: return "%s:roundtrip:not-equal" % cls
         return "%s:%s" % (cls, f[:40])
